@@ -876,9 +876,11 @@ def strat_resume():
 
 def units(tier):
     return [
-        Unit('resume', 'hyp', shards=16, examples={'quick': 3, 'thorough': 190},
+        Unit('resume', 'hyp', shards={'quick': 12, 'thorough': 16},
+             examples={'quick': 4, 'thorough': 190},
              strategy=strat_resume, per_case_timeout=300.0),
-        Unit('tamper', 'bulk', shards=16, run=run_tamper, exhaustive=True),
+        Unit('tamper', 'bulk', shards={'quick': 4, 'thorough': 16}, run=run_tamper,
+             exhaustive=(tier == 'thorough')),
     ]
 
 
